@@ -4,7 +4,16 @@
 // with the build tag "verif".
 package ast
 
-import "errors"
+import (
+	"errors"
+	"regexp/syntax"
+	"strings"
+)
+
+var (
+	_ strings.Builder
+	_ syntax.Flags
+)
 
 // ghost vocabulary (interpreted by govc; bodies are never executed)
 
@@ -48,7 +57,11 @@ func loopEntry[T any](x T) T                     { return x }
 func exactCmpIF(i int64, f float64) int          { return 0 }
 func errIsCtx(err error) bool                    { return false }
 func sameSlice[T any](a, b []T) bool             { return len(a) == len(b) }
+func sameVal[T any](a, b T) bool                  { return true }
 func uninterp[T any](name string, args ...any) T { var z T; return z }
+func outCount() int                              { return 0 }
+func outFirst() any                              { return nil }
+func outLast() any                               { return nil }
 
 // ---------------------------------------------------------------------------
 // getters used by the executor: pure functions of the (immutable) node
@@ -94,36 +107,42 @@ func IsBoolNode(n Node) bool {
 //@ props C05
 //@ pure
 //@ trusted "wfAST: New() is only called by the parser with a non-nil root"
+//@ ensures link: r0 == a.root
 //@ ensures r0 != nil
 
 //@ func (*ConstNode).Const
 //@ props C05
 //@ pure
 //@ trusted "wfAST: constant kinds come from the grammar actions"
+//@ ensures link: r0 == n.kind
 //@ ensures r0 >= ConstRoot && r0 <= ConstNull
 
 //@ func (*MethodNode).Name
 //@ props C05
 //@ pure
 //@ trusted "wfAST: method names come from the grammar actions"
+//@ ensures link: r0 == n.name
 //@ ensures r0 >= MethodAbs && r0 <= MethodString
 
 //@ func (*BinaryNode).Operator
 //@ props C05
 //@ pure
 //@ trusted "wfAST: operators come from the grammar actions"
+//@ ensures link: r0 == n.op
 //@ ensures r0 >= BinaryAnd && r0 <= BinaryDecimal
 
 //@ func (*UnaryNode).Operator
 //@ props C05
 //@ pure
 //@ trusted "wfAST: operators come from the grammar actions"
+//@ ensures link: r0 == n.op
 //@ ensures r0 >= UnaryExists && r0 <= UnaryTimestampTZ
 
 //@ func (*BinaryNode).Left
 //@ props C05
 //@ pure
 //@ trusted "wfAST: binary operators other than .decimal() have a left operand"
+//@ ensures link: r0 == n.left
 //@ ensures n.Operator() != BinaryDecimal ==> r0 != nil
 //@ ensures (n.Operator() == BinaryAnd || n.Operator() == BinaryOr) ==> r0.Next() == nil && IsBoolNode(r0)
 
@@ -131,6 +150,7 @@ func IsBoolNode(n Node) bool {
 //@ props C05
 //@ pure
 //@ trusted "wfAST: binary operators other than subscripts and .decimal() have a right operand"
+//@ ensures link: r0 == n.right
 //@ ensures n.Operator() != BinaryDecimal && n.Operator() != BinarySubscript ==> r0 != nil
 //@ ensures (n.Operator() == BinaryAnd || n.Operator() == BinaryOr) ==> r0.Next() == nil && IsBoolNode(r0)
 
@@ -138,6 +158,7 @@ func IsBoolNode(n Node) bool {
 //@ props C05
 //@ pure
 //@ trusted "wfAST: unary operators other than the datetime methods have an operand"
+//@ ensures link: r0 == n.operand
 //@ ensures n.Operator() < UnaryDateTime ==> r0 != nil
 //@ ensures (n.Operator() == UnaryNot || n.Operator() == UnaryIsUnknown || n.Operator() == UnaryFilter) ==> r0.Next() == nil && IsBoolNode(r0)
 
@@ -145,10 +166,224 @@ func IsBoolNode(n Node) bool {
 //@ props C05
 //@ pure
 //@ trusted "wfAST: like_regex has an operand"
+//@ ensures link: r0 == n.operand
 //@ ensures r0 != nil
 
 //@ func (*ArrayIndexNode).Subscripts
 //@ props C05 C14
 //@ pure
 //@ trusted "wfAST: subscripts are BinarySubscript nodes"
+//@ ensures link: sameSlice(r0, n.subscripts)
 //@ ensures forall(func(i int) bool { return implies(0 <= i && i < len(r0), is[*BinaryNode](r0[i]) && as[*BinaryNode](r0[i]).Operator() == BinarySubscript) })
+
+//@ sweep safety C04 exclude=_string.go,String,LinkNodes
+
+// ---------------------------------------------------------------------------
+// printer (C02): decisions that the canonical text depends on. outFirst /
+// outLast / outCount are ghost views of the sequence of things written to the
+// buffer by this call (a rune, a string, or nil for "a child printed itself").
+// Obligations are one-directional: required parentheses and dots are present.
+
+//@ func (*BinaryNode).writeTo
+//@ props C02
+//@ requires wf-operands: n.op <= BinaryMod ==> n.left != nil && n.right != nil && n.left != n.next && n.right != n.next && n.left != n.right
+//@ requires wf-subscript: n.op == BinarySubscript ==> n.left != nil && n.left != n.next && n.left != n.right && n.right != n.next
+//@ requires wf-op: n.op >= BinaryAnd && n.op <= BinaryDecimal
+//@ modifies *buf
+//@ atcall writeTo assert [C02] left-parens: n.op <= BinaryMod && arg_recv == n.left ==> !arg_inKey && arg_withParens == (n.left.priority() <= n.priority())
+//@ atcall writeTo assert [C02] right-parens: n.op <= BinaryMod && arg_recv == n.right ==> !arg_inKey && arg_withParens == (n.right.priority() <= n.priority())
+//@ atcall writeTo assert [C02] chained-operand-parens: n.op <= BinaryMod && (arg_recv == n.left || arg_recv == n.right) && arg_recv.Next() != nil && arg_recv.priority() < 6 ==> arg_withParens
+//@ atcall writeTo assert [C02] operator-between: n.op <= BinaryMod && arg_recv == n.right ==> outLast() == any(" "+n.op.String()+" ")
+//@ atcall writeTo assert [C02] chain: arg_recv == n.next && arg_recv != n.left && arg_recv != n.right ==> arg_inKey && arg_withParens
+//@ atcall writeTo assert [C02] close-before-chain: n.op <= BinaryMod && withParens && arg_recv == n.next ==> outLast() == any(rune(')'))
+//@ ensures [C02] open-when-asked: n.op <= BinaryMod && withParens ==> outFirst() == any(rune('('))
+//@ ensures [C02] own-parens-with-chain: n.op <= BinaryMod && n.next != nil ==> outFirst() == any(rune('('))
+//@ ensures [C02] close-when-asked: n.op <= BinaryMod && withParens && n.next == nil ==> outLast() == any(rune(')'))
+
+//@ func (*UnaryNode).writeTo
+//@ props C02
+//@ requires wf-operand: n.op <= UnaryFilter ==> n.operand != nil && n.operand != n.next
+//@ requires wf-op: n.op >= UnaryExists && n.op <= UnaryTimestampTZ
+//@ modifies *buf
+//@ atcall writeTo assert [C02] sign-operand-parens: (n.op == UnaryPlus || n.op == UnaryMinus) && arg_recv == n.operand ==> !arg_inKey && arg_withParens == (n.operand.priority() <= n.priority())
+//@ atcall writeTo assert [C02] chained-operand-parens: (n.op == UnaryPlus || n.op == UnaryMinus) && arg_recv == n.operand && arg_recv.Next() != nil && arg_recv.priority() < 6 ==> arg_withParens
+//@ atcall writeTo assert [C02] bracketed-operand: (n.op == UnaryExists || n.op == UnaryNot || n.op == UnaryFilter || n.op == UnaryIsUnknown) && arg_recv == n.operand ==> !arg_inKey && is[rune](outLast()) && as[rune](outLast()) == '(' || is[string](outLast())
+//@ atcall writeTo assert [C02] chain: arg_recv == n.next && arg_recv != n.operand ==> arg_inKey && arg_withParens
+//@ ensures [C02] sign-open-when-asked: (n.op == UnaryPlus || n.op == UnaryMinus) && withParens ==> outFirst() == any(rune('('))
+//@ ensures [C02] own-parens-with-chain: (n.op == UnaryPlus || n.op == UnaryMinus || n.op == UnaryNot || n.op == UnaryExists || n.op == UnaryIsUnknown) && n.next != nil ==> outFirst() == any(rune('('))
+//@ ensures [C02] is-unknown-brackets: n.op == UnaryIsUnknown ==> outFirst() == any(rune('('))
+
+//@ func (*numberNode).writeTo
+//@ props C02
+//@ modifies *buf
+//@ ensures [C02] parens-with-chain: n.next != nil ==> outFirst() == any(rune('('))
+//@ atcall writeTo assert [C02] chain: arg_recv == n.next ==> arg_inKey && arg_withParens && outLast() == any(rune(')'))
+//@ ensures [C02] text: n.next == nil ==> outCount() == 1 && outFirst() == any(n.parsed)
+
+//@ func (*KeyNode).writeTo
+//@ props C02
+//@ requires wf-part: n.quotedString != nil
+//@ modifies *buf
+//@ ensures [C02] dot-in-chain: inKey ==> outFirst() == any(rune('.'))
+//@ atcall writeTo assert [C02] chain: arg_recv == n.Next() ==> arg_inKey && arg_withParens
+
+//@ func (*ConstNode).writeTo
+//@ props C02
+//@ modifies *buf
+//@ ensures [C02] dot-before-wildcard: inKey && n.kind == ConstAnyKey ==> outFirst() == any(rune('.'))
+//@ ensures [C02] no-dot-otherwise: !(inKey && n.kind == ConstAnyKey) ==> outFirst() == any(n.kind.String())
+//@ atcall writeTo assert [C02] chain: arg_recv == n.next ==> arg_inKey && arg_withParens
+
+//@ func (*AnyNode).writeTo
+//@ props C02 C15
+//@ modifies *buf
+//@ ensures [C02] dot-in-chain: inKey ==> outFirst() == any(rune('.'))
+//@ atcall writeTo assert [C02] chain: arg_recv == n.next ==> arg_inKey && arg_withParens
+
+//@ func (*MethodNode).writeTo
+//@ props C02
+//@ modifies *buf
+//@ ensures [C02] name: outFirst() == any(n.name.String())
+//@ atcall writeTo assert [C02] chain: arg_recv == n.next ==> arg_inKey && arg_withParens
+
+//@ func (*quotedString).writeTo
+//@ props C02
+//@ modifies *buf
+//@ ensures [C02] quoted: outFirst() == any(uninterp[string]("ext_strconv_Quote_r0", n.str))
+//@ atcall writeTo assert [C02] chain: arg_recv == n.next ==> arg_inKey && arg_withParens
+
+//@ func (*VariableNode).writeTo
+//@ props C02
+//@ requires wf-part: n.quotedString != nil
+//@ modifies *buf
+//@ atcall writeTo assert [C02] chain: arg_recv == n.Next() ==> arg_inKey && arg_withParens
+
+//@ func (*ArrayIndexNode).writeTo
+//@ props C02
+//@ requires wf-subscripts: forall(func(i int) bool { return implies(0 <= i && i < len(n.subscripts), n.subscripts[i] != nil) })
+//@ modifies *buf
+//@ ensures [C02] bracket: outFirst() == any(rune('['))
+//@ atcall writeTo assert [C02] chain: arg_recv == n.next && rangeindex >= len(n.subscripts)-1 ==> true
+
+//@ func (*RegexNode).writeTo
+//@ props C02
+//@ requires wf-operand: n.operand != nil && n.operand != n.next
+//@ modifies *buf
+//@ atcall writeTo assert [C02] operand-parens: arg_recv == n.operand ==> !arg_inKey && arg_withParens == (n.operand.priority() <= n.priority())
+//@ atcall writeTo assert [C02] chain: arg_recv == n.next && arg_recv != n.operand ==> arg_inKey && arg_withParens
+//@ ensures [C02] open-when-asked: withParens ==> outFirst() == any(rune('('))
+//@ ensures [C02] own-parens-with-chain: n.next != nil ==> outFirst() == any(rune('('))
+
+//@ func (*AST).String
+//@ props C02
+//@ pure
+//@ requires a.Root() != nil
+//@ atcall writeTo assert [C02] root: arg_recv == a.root && !arg_inKey && arg_withParens
+//@ ensures [C02] mode-prefix: !a.lax ==> outFirst() == any("strict ")
+//@ ensures [C02] lax-no-prefix: a.lax ==> outFirst() == nil
+
+//@ func (BinaryOperator).String
+//@ props C05 C02
+//@ pure
+//@ trusted "stringer-generated table lookup: the result is never the empty string"
+//@ ensures len(r0) >= 1
+
+//@ func (Constant).String
+//@ props C05 C02
+//@ pure
+//@ trusted "stringer-generated table lookup: the result is never the empty string"
+//@ ensures len(r0) >= 1
+
+//@ func (MethodName).String
+//@ props C05 C02
+//@ pure
+//@ trusted "stringer-generated table lookup: the result is never the empty string"
+//@ ensures len(r0) >= 1
+
+// ---------------------------------------------------------------------------
+// second validation pass (C04): placement of @ and last
+
+//@ func validateNode
+//@ props C04
+//@ assumes depth-small: depth >= 0 && depth < 1073741824
+//@ assumes tree-unary: is[*UnaryNode](node) ==> as[*UnaryNode](node).operand == nil || as[*UnaryNode](node).operand != as[*UnaryNode](node).next
+//@ assumes tree-regex: is[*RegexNode](node) ==> as[*RegexNode](node).operand == nil || as[*RegexNode](node).operand != as[*RegexNode](node).next
+//@ assumes tree-binary: is[*BinaryNode](node) ==> (as[*BinaryNode](node).left == nil || as[*BinaryNode](node).left != as[*BinaryNode](node).next) && (as[*BinaryNode](node).right == nil || as[*BinaryNode](node).right != as[*BinaryNode](node).next)
+//@ assumes parts: (is[*StringNode](node) ==> as[*StringNode](node).quotedString != nil) && (is[*VariableNode](node) ==> as[*VariableNode](node).quotedString != nil) && (is[*KeyNode](node) ==> as[*KeyNode](node).quotedString != nil) && (is[*NumericNode](node) ==> as[*NumericNode](node).numberNode != nil) && (is[*IntegerNode](node) ==> as[*IntegerNode](node).numberNode != nil)
+//@ ensures [C04] current-outside-filter: is[*ConstNode](node) && as[*ConstNode](node).kind == ConstCurrent && depth <= 0 ==> r0 != nil
+//@ ensures [C04] last-outside-subscript: is[*ConstNode](node) && as[*ConstNode](node).kind == ConstLast && !inSubscript ==> r0 != nil
+//@ ensures [C04] nil-ok: node == nil ==> r0 == nil
+//@ atcall validateNode assert [C04] filter-operand-depth: is[*UnaryNode](node) && arg_node != nil && arg_node == as[*UnaryNode](node).operand ==> arg_inSubscript == inSubscript && arg_depth == depth + ite(as[*UnaryNode](node).op == UnaryFilter, 1, 0)
+//@ atcall validateNode assert [C04] binary-operands: is[*BinaryNode](node) && arg_node != nil && (arg_node == as[*BinaryNode](node).left || arg_node == as[*BinaryNode](node).right) ==> arg_depth == depth && arg_inSubscript == inSubscript
+//@ atcall validateNode assert [C04] regex-operand: is[*RegexNode](node) && arg_node != nil && arg_node == as[*RegexNode](node).operand ==> arg_depth == depth && arg_inSubscript == inSubscript
+//@ atcall validateNode assert [C04] chain-keeps-context: is[*UnaryNode](node) && arg_node != nil && arg_node == node.Next() ==> arg_depth == depth && arg_inSubscript == inSubscript
+//@ atcall validateNode assert [C04] chain-keeps-context-binary: is[*BinaryNode](node) && arg_node != nil && arg_node == node.Next() ==> arg_depth == depth && arg_inSubscript == inSubscript
+//@ atcall validateNode assert [C04] chain-keeps-context-other: !is[*UnaryNode](node) && !is[*BinaryNode](node) && !is[*RegexNode](node) && !is[*ArrayIndexNode](node) ==> arg_depth == depth && arg_inSubscript == inSubscript
+
+//@ func New
+//@ props C04
+//@ ensures [C04] value-iff-ok: (r0 != nil) == (r1 == nil)
+//@ ensures [C04] fields: r1 == nil ==> r0.root == n && r0.lax == lax && r0.pred == pred && fresh(r0)
+
+// ---------------------------------------------------------------------------
+// like_regex flags (C04, C12, C02)
+
+//@ func newRegexFlags
+//@ props C04 C12
+//@ mode bv
+//@ loop 1 invariant [C04] mask: bitMask <= 31
+//@ ensures [C04] in-range: r1 == nil ==> r0 <= 31
+//@ ensures [C04] x-needs-q: r1 == nil ==> r0&8 == 0 || r0&16 != 0
+
+//@ func (regexFlags)._syntaxFlags
+//@ props C04 C12
+//@ mode bv
+//@ ensures [C04] x-without-q-rejected: f&16 == 0 && f&8 != 0 ==> r1 != nil
+//@ ensures [C04] otherwise-ok: !(f&16 == 0 && f&8 != 0) ==> r1 == nil
+//@ ensures [C12] fold-case: r1 == nil ==> (r0&1 != 0) == (f&1 != 0)
+//@ ensures [C12] literal: r1 == nil ==> (r0&2 != 0) == (f&16 != 0)
+//@ ensures [C12] dot-nl: r1 == nil && f&16 == 0 ==> (r0&8 != 0) == (f&2 != 0)
+//@ ensures [C12] multi-line: r1 == nil && f&16 == 0 ==> (r0&16 == 0) == (f&4 != 0)
+//@ ensures [C12] quote-ignores-s-m: r1 == nil && f&16 != 0 ==> r0&8 == 0 && r0&16 != 0
+
+//@ func (regexFlags).shouldQuoteMeta
+//@ props C12
+//@ mode bv
+//@ ensures [C12] q: r0 == (f&16 != 0)
+
+//@ func (regexFlags).goFlags
+//@ props C12
+//@ mode bv
+//@ ensures [C12] empty-iff-no-option: (len(r0) == 0) == (f&1 == 0 && (f&16 != 0 || (f&2 == 0 && f&4 == 0)))
+
+// ---------------------------------------------------------------------------
+// constructors that panic by contract (C04): the panic is excluded by a
+// precondition that every caller (grammar action or NewUnaryOrNumber) must
+// establish from what the lexer guarantees about the token text
+
+//@ func NewInteger
+//@ props C04 C03
+//@ requires [C04] convertible: uninterp[error]("ext_strconv_ParseInt_r1", integer, 0, 64) == nil
+//@ ensures [C03] fresh: r0 != nil && fresh(r0) && r0.numberNode != nil && r0.numberNode.literal == integer && r0.numberNode.next == nil
+
+//@ func NewNumeric
+//@ props C04 C03
+//@ requires [C04] convertible: uninterp[error]("ext_strconv_ParseFloat_r1", num, 64) == nil && !isNaN(uninterp[float64]("ext_strconv_ParseFloat_r0", num, 64)) && !isInf(uninterp[float64]("ext_strconv_ParseFloat_r0", num, 64))
+//@ ensures [C03] fresh: r0 != nil && fresh(r0) && r0.numberNode != nil && r0.numberNode.literal == num && r0.numberNode.next == nil
+
+//@ func (*IntegerNode).Int
+//@ props C03 C01
+//@ assumes part: n.numberNode != nil
+
+//@ func (*NumericNode).Float
+//@ props C03 C01
+//@ assumes part: n.numberNode != nil
+
+//@ func NewUnaryOrNumber
+//@ props C03 C04
+//@ requires node != nil
+//@ requires sign-only: op == UnaryPlus || op == UnaryMinus
+//@ assumes parts: (is[*NumericNode](node) ==> as[*NumericNode](node).numberNode != nil) && (is[*IntegerNode](node) ==> as[*IntegerNode](node).numberNode != nil)
+//@ ensures [C03] plus-is-identity: op == UnaryPlus && node.Next() == nil && (is[*NumericNode](node) || is[*IntegerNode](node)) ==> r0 == node
+//@ ensures [C03] chained-literal-not-folded: node.Next() != nil ==> is[*UnaryNode](r0) && as[*UnaryNode](r0).op == op && as[*UnaryNode](r0).operand == node
+//@ ensures [C03] other-operand: !(is[*NumericNode](node) || is[*IntegerNode](node)) ==> is[*UnaryNode](r0) && as[*UnaryNode](r0).op == op && as[*UnaryNode](r0).operand == node
